@@ -97,6 +97,10 @@ TrackDouble ==    \* mid.tracks[t] = mid.tracks[t] * 2   (the same message objec
   /\ \E t \in DOMAIN tracks : tracks[t] # <<>> /\ Len(tracks[t]) <= 2 /\
        Edit("track_double", t, 0, 0, [tracks EXCEPT ![t] = @ \o @], TRUE)
   /\ UNCHANGED nextid
+TracksReverse ==  \* mid.tracks = list(reversed(mid.tracks))   (a NEW list object; track order decides ties)
+  /\ "tracks_reverse" \in OpSet /\ Len(tracks) >= 2
+  /\ Edit("tracks_reverse", 0, 0, 0, [i \in DOMAIN tracks |-> tracks[Len(tracks) + 1 - i]], TRUE)
+  /\ UNCHANGED nextid
 Flatten ==        \* mid.tracks[:] = [mid.merged_track]   (the usual way to flatten a file)
   /\ "flatten" \in OpSet /\ ftype # 2 /\ tracks # <<>> /\ Len(Obs(tracks)) <= 4
   /\ Edit("flatten", 0, 0, 0, <<Obs(tracks)>>, TRUE)
@@ -139,7 +143,7 @@ Init == /\ ftype = 1 /\ tpb = 480 /\ tracks = <<>> /\ memo = None /\ hist = <<>>
         /\ doubled = FALSE
 Next == /\ Len(hist) < MaxOps
         /\ \/ AddTrack \/ TracksAppend \/ TracksRemove \/ MsgAppend \/ MsgInsert \/ MsgDelete
-           \/ MsgSetTime \/ MsgSetAttr \/ MsgReplace \/ MsgSwapTimes \/ TrackSlice \/ TrackName \/ TrackDouble \/ Flatten
+           \/ MsgSetTime \/ MsgSetAttr \/ MsgReplace \/ MsgSwapTimes \/ TrackSlice \/ TrackName \/ TrackDouble \/ Flatten \/ TracksReverse
            \/ SetTpb \/ SetType
            \/ Observe("iterate") \/ Observe("length") \/ Observe("merged_track") \/ Observe("play") \/ Observe("iter_nested") \/ Save
 Spec == Init /\ [][Next]_vars
@@ -161,7 +165,7 @@ OpCode(op) == CASE op = "add_track" -> 1 [] op = "tracks_append" -> 2 [] op = "t
                 [] op = "save" -> 13 [] op = "play" -> 14
                 [] op = "msg_attr" -> 15 [] op = "msg_replace" -> 16 [] op = "msg_swap" -> 17
                 [] op = "track_slice" -> 18 [] op = "track_name" -> 19
-                [] op = "track_double" -> 20 [] op = "iter_nested" -> 21 [] op = "flatten" -> 22
+                [] op = "track_double" -> 20 [] op = "iter_nested" -> 21 [] op = "flatten" -> 22 [] op = "tracks_reverse" -> 23
 NObs == Cardinality({i \in DOMAIN hist : IsObs(hist[i]) \/ hist[i].op = "save"})
 Emit == (Len(hist) = MaxOps /\ NObs >= 1 /\ (IsObs(hist[MaxOps]) \/ hist[MaxOps].op = "save")) =>
   PrintT(ToString(<<"EMIT", Len(hist)>> \o
